@@ -387,13 +387,13 @@ def c17(tier):
     gen = spec_generated_programs(chk, wd, tier)
     xouts = run_harness(exe, 'exec', [{'id': j, 'bytes': g['bytes'], 'want': ['listing']} for j, g in enumerate(gen)], wd, tag='c17x')
     for j, o in enumerate(xouts):
-        if 'listing' in o:
-            names[len(recs)] = 'spec-generated:%d' % j
-            recs.append({'bytes': gen[j]['bytes'], 'text': o['listing']})
+        names[len(recs)] = 'spec-generated:%d' % j
+        # no listing at all is a result too: TLC says whether the loader had to accept the file
+        recs.append({'bytes': gen[j]['bytes'], 'text': o['listing']} if 'listing' in o else {'bytes': gen[j]['bytes'], 'text': '', 'nolisting': True})
     lrecs = []
     for k, r in enumerate(recs):
         ok, L = lex_listing(r['text'])
-        lrecs.append({'id': k, 'bytes': r['bytes'], 'lexed': ok, 'listing': L})
+        lrecs.append({'id': k, 'bytes': r['bytes'], 'lexed': ok, 'listing': L, 'nolisting': bool(r.get('nolisting'))})
     counts = {}
     for b in range(0, len(lrecs), 600):
         part = lrecs[b:b + 600]
@@ -1081,6 +1081,20 @@ def c11(tier):
             obs.append({'key': p['name'] + ' :: outcome', 'val': {'ok': rc == 0, 'out': hashlib.sha1(so).hexdigest()}, 'cfg': '%s `fml run`' % profile})
             chk.count((p['name'], profile))
     chk.notes['frame_limit_programs'] = len(fl)
+    # byte strings no compiler writes but a loader may meet: an image followed by a line break, by junk, by a second image (cat a.bc b.bc): whatever a build does with
+    # them, every build and every process does the same
+    tails = 0
+    for i in [k for k, o in enumerate(first) if 'bytes' in o][:6]:
+        for tname, tail in (('newline', b'\n'), ('junk', b'\x00\xff junk'), ('second image', bytes(first[i]['bytes']))):
+            bc = os.path.join(wd, 't%d.%s.bc' % (i, tname.replace(' ', '_')))
+            open(bc, 'wb').write(bytes(first[i]['bytes']) + tail)
+            tails += 1
+            for profile in ('debug', 'release'):
+                for rd in range(2):
+                    rc, so, se = sh([build(profile), 'execute', bc], wd)
+                    obs.append({'key': '%s + trailing %s :: outcome' % (progs[i]['name'], tname), 'val': {'ok': rc == 0, 'out': hashlib.sha1(so).hexdigest()}, 'cfg': '%s `fml execute` process %d' % (profile, rd + 1)})
+                    chk.count((progs[i]['name'] + ' + ' + tname, profile))
+    chk.notes['images_with_trailing_bytes'] = tails
     # bytecode with duplicate label texts (TLC-generated, MC_DupLabels): the same bytes must always behave the same, in every process
     rd = tlc_or_die('MC_DupLabels', workers=2, timeout=600)
     chk.add_tlc(rd)
